@@ -64,6 +64,18 @@ int main() {
             (f == "find") ? CubicRoots::find_roots(x1, x2, x3, a3, a2, a1, a0)
                           : CubicRoots::exe(x1, x2, x3, a3, a2, a1, a0, sb == "1");
         std::cout << n << " " << bits(x1) << " " << bits(x2) << " " << bits(x3) << "\n";
+      } else if (f == "cbrt") {
+        // the cube-root helpers of the anchored header: the overload used for double, the generic (pow based)
+        // template selected explicitly, and the float / long double overloads (results widened to double)
+        std::string sx;
+        if (!(is >> sx)) {
+          std::cout << "bad-op\n";
+          continue;
+        }
+        const double x = from_bits(sx);
+        std::cout << "c " << bits(CubicRoots::cbrt(x)) << " " << bits(CubicRoots::cbrt<double>(x)) << " "
+                  << bits(static_cast<double>(CubicRoots::cbrt(static_cast<float>(x)))) << " "
+                  << bits(static_cast<double>(CubicRoots::cbrt(static_cast<long double>(x)))) << "\n";
       } else if (f == "improve") {
         std::string sv, s3, s2, s1, s0;
         if (!(is >> sv >> s3 >> s2 >> s1 >> s0)) {
